@@ -58,8 +58,11 @@ def generate(rng, tier, shard, nshards):
         if rng.random() < 0.15:
             ang = rng.choice([0, 0, 0.0, 90, 180, 270, -90, 360])          # exactly axis-aligned on the sky (0 is the constructor default)
         unit = rng.choice(['deg', 'rad', 'arcmin'])
+        # mostly moderate aspect ratios; one case in seven is slit-like (8..40, both axes still within 1-50 px)
+        ratio = rng.uniform(1.25, 4.0) if rng.random() < 0.85 else rng.uniform(8.0, 40.0)
+        a_px = rng.uniform(1, 50) if ratio < 8 else rng.uniform(ratio, 50)
         yield {'lane': cls, 'cls': cls, 'wcs': w, 'dx': rng.uniform(-300, 300), 'dy': rng.uniform(-300, 300),
-               'a_px': rng.uniform(1, 50), 'ratio': rng.uniform(1.25, 4.0), 'wide': rng.random() < 0.5,
+               'a_px': a_px, 'ratio': ratio, 'wide': rng.random() < 0.5,
                'inner': rng.uniform(0.2, 0.8), 'angle_deg': ang, 'angle_unit': unit, 'size_unit': rng.choice(['arcsec', 'arcmin', 'deg']),
                'size_unit2': rng.choice(['arcsec', 'arcmin', 'deg', 'mas']),
                'other_frame': (rng.choice([f for f in ('icrs', 'galactic', 'fk5', 'fk4') if f != w['frame']])
